@@ -1,7 +1,7 @@
 (* PropC12.v — C12: a batch append is all-or-nothing (one call = one entry; the codec validates the whole batch; replay applies all records of an entry or fails; a torn or damaged entry is delivered whole or not at all by the record reader).
    Statements only; each theorem is closed by `exact <lemma>`; proofs live in the imported files. *)
 From Coq Require Import Lia NArith List.
-From MRL Require Import Bytes Params Names Frame Record Mem Rolling Log Driver SpecRefine RecordProofs StreamProofs TornProofs DamageProofs OpenReplay TornFile DamageFile CrashCorollaries PersistSurvive CrashAtomic DamageAtomic RestartInv RestartFinal PowerLoss PowerCorollaries HeaderDamageEv HeaderDamage.
+From MRL Require Import Bytes Params Names Frame Record Mem Rolling Log Driver SpecRefine RecordProofs StreamProofs TornProofs DamageProofs OpenReplay TornFile DamageFile CrashCorollaries PersistSurvive CrashAtomic DamageAtomic RestartInv RestartFinal PowerLoss PowerCorollaries HeaderDamageEv HeaderDamage HeaderDamageFile BatchHeaderDamage BatchHeaderDamageEx.
 
 (* whatever decodes as an AppendRecords entry is exactly the serialization of the batch it decodes to: no partial batch *)
 Theorem C12_batch_decodes_whole :
@@ -213,14 +213,15 @@ Theorem C12_batch_all_or_nothing_spec :
     (k <= length h1)%nat /\
     (QueueIso.never_deleted q (skipn k h1) (snd (s_run mk (skipn k h1))) ->
     forall (recs : list (N * bytes)) (next : N),
-    Spec.s_get mk q = Some (recs, next) -> next <= b /\ filter (in_span b (last + 1)) recs = []) \/
+    Spec.s_get mk q = Some (recs, next) ->
+    next <= b /\ filter (CrashCorollaries.in_span b (last + 1)) recs = []) \/
     (length h1 < k)%nat /\
     (let k2 := (k - S (length h1))%nat in
     mk = fst (s_run m2 (firstn k2 h2)) /\
     (QueueIso.never_deleted q (firstn k2 h2) (snd (s_run m2 (firstn k2 h2))) ->
     exists (recs : list (N * bytes)) (next : N) (j : nat),
     Spec.s_get mk q = Some (recs, next) /\
-    last < next /\ filter (in_span b (last + 1)) recs = skipn j (Spec.s_number b pl))).
+    last < next /\ filter (CrashCorollaries.in_span b (last + 1)) recs = skipn j (Spec.s_number b pl))).
 Proof. exact batch_all_or_nothing_spec. Qed.
 Print Assumptions C12_batch_all_or_nothing_spec.
 
@@ -302,7 +303,7 @@ Theorem C12_batch_crash_persisted :
     QueueIso.log_never_deleted q (firstn k2 h2) (snd (Hist.run P st2 (firstn k2 h2))) ->
     exists (recs : list (N * bytes)) (next : N) (j : nat),
     Spec.s_get (abs_qs (s_qs st_r)) q = Some (recs, next) /\
-    last < next /\ filter (in_span b (last + 1)) recs = skipn j (Spec.s_number b pl)).
+    last < next /\ filter (CrashCorollaries.in_span b (last + 1)) recs = skipn j (Spec.s_number b pl)).
 Proof. exact batch_crash_persisted. Qed.
 Print Assumptions C12_batch_crash_persisted.
 
@@ -341,7 +342,8 @@ Theorem C12_batch_crash_always :
     (QueueIso.l_deleted q (o, tick) out = true /\ Spec.s_get (abs_qs (s_qs st_r)) q = None \/
     (exists (recs : list (N * bytes)) (next : N) (j : nat),
     Spec.s_get (abs_qs (s_qs st_r)) q = Some (recs, next) /\
-    last < next /\ filter (in_span b (last + 1)) recs = skipn j (Spec.s_number b pl)))).
+    last < next /\
+    filter (CrashCorollaries.in_span b (last + 1)) recs = skipn j (Spec.s_number b pl)))).
 Proof. exact batch_crash_always. Qed.
 Print Assumptions C12_batch_crash_always.
 
@@ -492,7 +494,7 @@ Theorem C12_batch_power_persisted :
     QueueIso.log_never_deleted q (firstn k2 h2) (snd (Hist.run P st2 (firstn k2 h2))) ->
     exists (recs : list (N * bytes)) (next : N) (j : nat),
     Spec.s_get (abs_qs (s_qs st_r)) q = Some (recs, next) /\
-    last < next /\ filter (in_span b (last + 1)) recs = skipn j (Spec.s_number b pl)).
+    last < next /\ filter (CrashCorollaries.in_span b (last + 1)) recs = skipn j (Spec.s_number b pl)).
 Proof. exact batch_power_persisted. Qed.
 Print Assumptions C12_batch_power_persisted.
 
@@ -509,4 +511,87 @@ Theorem C12_header_damage_entry_granular :
     let out := mem_read_stream P D in ~ In MrFuel out /\ sublist (delivered out) es.
 Proof. exact header_damage_sublist. Qed.
 Print Assumptions C12_header_damage_entry_granular.
+
+(* END TO END, arbitrary damage inside one block, frame headers included (NoEmbeddedPath): whenever open succeeds, what every queue holds is a SUFFIX of the concatenation of the batches of a sub-list of the written entries - a batch is there whole, or cut only from its front (by a truncation), never with a hole or a missing tail *)
+Theorem C12_header_damage_suffix :
+    forall P : params,
+    7 < BS P ->
+    BS P <= 65542 ->
+    1 <= NB P ->
+    (forall (t : byte) (p : bytes), crcf P t p < 2 ^ 32) ->
+    L_IO P = false ->
+    forall (st : state) (G : ghost) (blk : N) (D : bytes) (fs_d : fsT),
+    Inv P st G ->
+    header_damaged_dir P st G blk D fs_d ->
+    forall (pol : policy) (hint : list bytes) (st_r : state),
+    open P fs_d None pol hint = OpenOk st_r ->
+    exists Es' : list entry,
+    sublist Es' (map snd (gh_E G)) /\
+    (forall (q : bytes) (m : mq),
+    qs_get (s_qs st_r) q = Some m ->
+    exists k : nat, records_of (q_buf m) (q_metas m) = skipn k (appended q Es')).
+Proof. exact C12_header_damage_suffix. Qed.
+Print Assumptions C12_header_damage_suffix.
+
+(* position form: the records at the batch's positions are a suffix of the batch, provided no other incarnation of the queue used those positions (batch_fresh) *)
+Theorem C12_header_damage :
+    forall P : params,
+    7 < BS P ->
+    BS P <= 65542 ->
+    1 <= NB P ->
+    (forall (t : byte) (p : bytes), crcf P t p < 2 ^ 32) ->
+    L_IO P = false ->
+    forall (st : state) (G : ghost) (blk : N) (D : bytes) (fs_d : fsT),
+    Inv P st G ->
+    header_damaged_dir P st G blk D fs_d ->
+    forall (pol : policy) (hint : list bytes) (st_r : state),
+    open P fs_d None pol hint = OpenOk st_r ->
+    forall (j : nat) (fB : N) (q : bytes) (pos : N) (recs : list (N * bytes)),
+    nth_error (gh_E G) j = Some (fB, EAppend q pos recs) ->
+    batch_fresh G j q pos recs ->
+    forall m : mq,
+    qs_get (s_qs st_r) q = Some m ->
+    exists k : nat,
+    filter (in_span pos (pos + lenN recs)) (records_of (q_buf m) (q_metas m)) = skipn k recs.
+Proof. exact C12_header_damage. Qed.
+Print Assumptions C12_header_damage.
+
+(* in particular for a queue that was never deleted *)
+Theorem C12_header_damage_never_deleted :
+    forall P : params,
+    7 < BS P ->
+    BS P <= 65542 ->
+    1 <= NB P ->
+    (forall (t : byte) (p : bytes), crcf P t p < 2 ^ 32) ->
+    L_IO P = false ->
+    forall (st : state) (G : ghost) (blk : N) (D : bytes) (fs_d : fsT),
+    Inv P st G ->
+    header_damaged_dir P st G blk D fs_d ->
+    forall (pol : policy) (hint : list bytes) (st_r : state),
+    open P fs_d None pol hint = OpenOk st_r ->
+    forall (j : nat) (fB : N) (q : bytes) (pos : N) (recs : list (N * bytes)),
+    nth_error (gh_E G) j = Some (fB, EAppend q pos recs) ->
+    (forall f p : N, ~ In (f, EDelete q p) (gh_E G)) ->
+    forall m : mq,
+    qs_get (s_qs st_r) q = Some m ->
+    exists k : nat,
+    filter (in_span pos (pos + lenN recs)) (records_of (q_buf m) (q_metas m)) = skipn k recs.
+Proof. exact C12_header_damage_never_deleted. Qed.
+Print Assumptions C12_header_damage_never_deleted.
+
+(* that proviso is needed: one damaged length byte can cost the DeleteQueue, the re-creation and the batch's first frame together; open then shows the DELETED incarnation's record at the batch's first position (the batch itself is gone as a whole) *)
+Theorem C12_position_form_needs_fresh :
+    exists (G : ghost) (j : nat) (fB : N),
+    Inv Neg.Pd Neg.std G /\
+    header_damaged_dir Neg.Pd Neg.std G 2 Neg.Dd Neg.fsdd /\
+    nth_error (gh_E G) j = Some (fB, EAppend DamageAtomic.Example.qa 0 Neg.batch) /\
+    length (gh_E G) = S j /\
+    open Neg.Pd Neg.fsdd None PNothing [] = OpenOk Neg.st_rd /\
+    qs_get (s_qs Neg.st_rd) DamageAtomic.Example.qa = Some Neg.m_d /\
+    records_of (q_buf Neg.m_d) (q_metas Neg.m_d) = [(0, DamageAtomic.Example.pay "x")] /\
+    (forall k : nat,
+    filter (in_span 0 (0 + lenN Neg.batch)) (records_of (q_buf Neg.m_d) (q_metas Neg.m_d)) <>
+    skipn k Neg.batch).
+Proof. exact Neg.position_form_needs_fresh_e2e. Qed.
+Print Assumptions C12_position_form_needs_fresh.
 
